@@ -208,10 +208,12 @@ def main(argv=None):
             rc = 2
     for ob, v in engine_bugs:
         print(f"CHECKER-ERROR property={pid} engine soundness monitor tripped on {ob.name}: {v['detail'][:300]}")
-        rc = 3
+        if rc != 1:   # a reported violation keeps exit status 1 (the interface for violations); a checker problem alone is 3
+            rc = 3
     for ob, v in canary_fail:
         print(f"CHECKER-ERROR property={pid} canary {ob.name} was not refuted (status {v['status']}): vacuity guard")
-        rc = 3
+        if rc != 1:
+            rc = 3
     wall = time.time() - t0
     n_proof_obs = sum(1 for o in obs if not o.bounded)
     print(f"[{pid} {args.tier}] obligations={n_proof_obs} discharged={discharged} known-findings={len(known_hits)} "
